@@ -6,10 +6,12 @@
 package lang
 
 import (
+	"encoding/hex"
 	"fmt"
 	"sort"
 	"strconv"
 	"strings"
+	"unicode/utf8"
 )
 
 // Kind is the type of a model value.
@@ -44,6 +46,7 @@ type Value struct {
 	F  float64 `json:"-"`
 	FS string  `json:"f,omitempty"` // float as string for JSON (NaN/Inf safe)
 	S  string  `json:"s,omitempty"`
+	SX string  `json:"sx,omitempty"` // the bytes of S in hex when S is not valid UTF-8 (JSON cannot carry those)
 	B  bool    `json:"b,omitempty"`
 	A  []Value `json:"a,omitempty"`
 	H  []Pair  `json:"h,omitempty"`
@@ -52,7 +55,12 @@ type Value struct {
 // Constructors.
 func Int(i int64) Value     { return Value{K: KInt, I: i} }
 func Float(f float64) Value { return Value{K: KFloat, F: f, FS: strconv.FormatFloat(f, 'g', -1, 64)} }
-func Str(s string) Value    { return Value{K: KString, S: s} }
+func Str(s string) Value {
+	if !utf8.ValidString(s) {
+		return Value{K: KString, S: s, SX: hex.EncodeToString([]byte(s))}
+	}
+	return Value{K: KString, S: s}
+}
 func Bool(b bool) Value     { return Value{K: KBool, B: b} }
 func Null() Value           { return Value{K: KNull} }
 func Void() Value           { return Value{K: KVoid} }
@@ -72,6 +80,11 @@ func Hash(p ...Pair) Value {
 
 // Fix restores F from FS after JSON decoding (recursively).
 func (v *Value) Fix() {
+	if v.SX != "" {
+		if b, err := hex.DecodeString(v.SX); err == nil {
+			v.S = string(b)
+		}
+	}
 	if v.K == KFloat {
 		f, err := strconv.ParseFloat(v.FS, 64)
 		if err == nil {
